@@ -896,3 +896,13 @@ Example mergemany_partial_example :
   rmap to_list (mergemany [a; b])
   = Ok (Ok [VList [VNum (DZ 1); VNum (DZ 0)]; VNone; VList [VNum (DZ 1)]; VNone; VList [VNum (DZ 4)]]).
 Proof. vm_compute. repeat split. Qed.
+
+(* non-vacuity with a RegularArray operand: [[1,2],[3,4]] (regular, size 2, uint8) ++ [[5]] (ListOffset, float64) *)
+Example mergemany_partial_example_regular :
+  let a := Regular (Numpy DUInt8 [5] [DZ 1; DZ 2; DZ 3; DZ 4; DZ 9]) 2 0 in
+  let b := ListOffset I64 [1; 2] (Numpy DFloat64 [2] [DZ 0; DZ 5]) in
+  has_sk (SList SNum) a = true /\ has_sk (SList SNum) b = true /\ valid_b a = true /\ valid_b b = true /\
+  rmap to_list (mergemany [a; b])
+  = Ok (Ok [VList [VNum (DZ 1); VNum (DZ 2)]; VList [VNum (DZ 3); VNum (DZ 4)]; VList [VNum (DZ 5)]]) /\
+  rmap leaf_dt (mergemany [a; b]) = Ok DFloat64.
+Proof. vm_compute. repeat split. Qed.
